@@ -63,7 +63,9 @@ func (b *SubQueryBuilder) newSubOptions(ctx context.Context, opt *query.Processo
 	}
 	subOpt.NoPushDownDim = opt.NoPushDownDim
 	// use dimPushDown: 1.noPromQuery 2.PromQuery agg by(xx) call(mst[range])
-	if (!opt.PromQuery && !opt.NoPushDownDim) || subOpt.GroupByAllDims && subOpt.Range > 0 && !b.outerBinOp {
+	// The range function of a PromQL subquery (SUBCALL) works on the series of this statement:
+	// the dimensions of an outer aggregation must not merge them before it has run.
+	if (!opt.PromQuery && !opt.NoPushDownDim) || subOpt.GroupByAllDims && subOpt.Range > 0 && !b.outerBinOp && len(b.stmt.PromSubCalls) == 0 {
 		pushDownDimension := GetInnerDimensions(opt.Dimensions, subOpt.Dimensions)
 		subOpt.Dimensions = pushDownDimension
 		for d := range opt.GroupBy {
@@ -109,7 +111,9 @@ func (b *SubQueryBuilder) newSubOptions(ctx context.Context, opt *query.Processo
 	subOpt.StmtId = opt.StmtId
 	subOpt.MaxParallel = opt.MaxParallel
 	if opt.PromQuery {
-		if opt.EndTime == subOpt.EndTime {
+		// (the range function of a PromQL subquery answers at the evaluation timestamps of the outer
+		// query: the offset of the selector below it is not the offset of its result)
+		if opt.EndTime == subOpt.EndTime && len(b.stmt.PromSubCalls) == 0 {
 			opt.QueryOffset = b.stmt.QueryOffset
 		}
 	}
@@ -146,6 +150,12 @@ func GetInnerDimensions(outer, inner []string) []string {
 
 func FilterPushDown(opt *query.ProcessorOptions, schema *QuerySchema) {
 	if !opt.IsPromQuery() {
+		return
+	}
+
+	// A condition on the result of the range function of a PromQL subquery (SUBCALL) is not a
+	// condition on the samples the function reads.
+	if len(schema.PromSubCalls) > 0 {
 		return
 	}
 
